@@ -1,7 +1,7 @@
 (** C14 — non-vacuity: the model runs on literals; every hypothesis of every property theorem is
     met by a concrete instance. *)
 From Coq Require Import ZArith NArith List Bool.
-From RlibV Require Import C14.Model C14.Corr C14.Properties.
+From RlibV Require Import C14.Model C14.Corr C14.Spec C14.Properties.
 Import ListNotations.
 Open Scope Z_scope.
 
@@ -24,3 +24,93 @@ Example ex_empty_panics : gen false 8 (FRange 3 3) 7 = None.
 Proof. vm_compute. reflexivity. Qed.
 Example ex_shuffle_script : shuffle_script [5; 5; 5] [10; 20; 30; 40] = Some [10; 40; 30; 20].
 Proof. vm_compute. reflexivity. Qed.
+
+(** * instances of the property theorems: every hypothesis is met *)
+From Coq Require Import Lia Permutation Reals Lra.
+From Coq Require Import Floats.SpecFloat.
+From Flocq Require Import Core.Defs Core.Raux IEEE754.BinarySingleNaN.
+
+Lemma vw8 : valid_width 8. Proof. unfold valid_width. lia. Qed.
+Lemma vw64 : valid_width 64. Proof. unfold valid_width. lia. Qed.
+
+(** i8, -128..127: the length 255 only fits the unsigned type (wrapping_sub) *)
+Example ex_in_bounds :
+  exists x, gen true 8 (FRange (-128) 127) 254 = Some x
+            /\ form_lo true 8 (FRange (-128) 127) <= x <= form_hi true 8 (FRange (-128) 127)
+            /\ in_ty true 8 x = true.
+Proof. apply c14_range_in_bounds; [exact vw8|split; reflexivity|cbn; lia]. Qed.
+(** i64::MIN..=i64::MAX *)
+Example ex_in_bounds_full64 :
+  exists x, gen true 64 (FIncl (- 2 ^ 63) (2 ^ 63 - 1)) (2 ^ 64 - 1) = Some x
+            /\ form_lo true 64 (FIncl (- 2 ^ 63) (2 ^ 63 - 1)) <= x <= form_hi true 64 (FIncl (- 2 ^ 63) (2 ^ 63 - 1))
+            /\ in_ty true 64 x = true.
+Proof. apply c14_range_in_bounds; [exact vw64|split; reflexivity|cbn; lia]. Qed.
+Example ex_reachable :
+  gen true 8 (FRange (-128) 127) (witness_raw true 8 (FRange (-128) 127) 126) = Some 126
+  /\ 0 <= witness_raw true 8 (FRange (-128) 127) 126 < 2 ^ 64.
+Proof. apply c14_range_reachable; [exact vw8|split; reflexivity|cbn; lia]. Qed.
+Example ex_witness_value : witness_raw true 8 (FRange (-128) 127) 126 = 254 /\ witness_raw true 8 FFull (-1) = 255.
+Proof. split; reflexivity. Qed.
+Example ex_truncation : gen true 8 FFull 255 = Some (cast true 8 255) /\ cast true 8 255 = -1.
+Proof. split; [apply (c14_full_range_is_truncation true 8 255 vw8)|reflexivity]. Qed.
+Example ex_empty : gen false 8 (FRange 3 3) 7 = None.
+Proof. apply c14_empty_range_panics; [exact vw8|split; reflexivity|cbn; lia]. Qed.
+Example ex_empty_to_signed : gen true 8 (FTo (-5)) 7 = None.
+Proof. apply c14_empty_range_panics; [exact vw8|reflexivity|cbn; lia]. Qed.
+
+Example ex_det : stream false 32 (FRange 0 4) 42 12 = stream false 32 (FRange 0 4) 42 12.
+Proof. now apply (proj1 c14_stream_deterministic). Qed.
+Example ex_step_bij : 0 <= lcg_step 42 < 2 ^ 64 /\ lcg_unstep (lcg_step 42) = 42.
+Proof. apply (proj1 c14_state_step_bijective). lia. Qed.
+Example ex_unstep_bij : 0 <= lcg_unstep 42 < 2 ^ 64 /\ lcg_step (lcg_unstep 42) = 42.
+Proof. apply (proj2 c14_state_step_bijective). lia. Qed.
+Example ex_out_bij : 0 <= out_mix (2 ^ 64 - 1) < 2 ^ 64 /\ out_mix (out_mix (2 ^ 64 - 1)) = 2 ^ 64 - 1.
+Proof. apply c14_output_bijective. lia. Qed.
+Example ex_seed_inj : 42 = 42.
+Proof. apply c14_seed_injective; [lia|lia|reflexivity]. Qed.
+(** seeds differing only in bit 63 differ in the first output *)
+Example ex_seed_high_bit : snd (next_raw (from_seed 0)) <> snd (next_raw (from_seed (2 ^ 63))).
+Proof. intros E. apply c14_seed_injective in E; [discriminate|lia|lia]. Qed.
+
+Example ex_shuffle_perm : Permutation [10; 20; 30; 40] [10; 40; 30; 20].
+Proof.
+  apply (c14_shuffle_permutation (list Z) Z script_next [5; 5; 5] [10; 20; 30; 40] [] [10; 40; 30; 20]).
+  vm_compute. reflexivity.
+Qed.
+Example ex_shuffle_total : shuffle rng_next (from_seed 42) [1; 2; 3; 4; 5] <> None.
+Proof. apply c14_shuffle_total; [intros s; discriminate|cbn; lia]. Qed.
+Example ex_reaches : exists rs, length rs = 2%nat /\ Forall (fun r => 0 <= r < 2 ^ 64) rs
+                                /\ shuffle_script rs (zseq 3) = Some [2; 0; 1].
+Proof.
+  apply (c14_shuffle_reaches_all_partial 3 [2; 0; 1]); [lia|].
+  eapply perm_trans; [apply perm_swap|apply perm_skip; apply perm_swap].
+Qed.
+Example ex_old_period : state_after (2 ^ 2 + 5) 42 mod 2 ^ Z.of_nat 2 = state_after 5 42 mod 2 ^ Z.of_nat 2.
+Proof. apply (c14_old_low_bits_periodic 2 5 42). lia. Qed.
+Example ex_fair4 : exists seed, In seed (seeds_for 4) /\ 0 <= seed < 2 ^ 64 /\ shuffle_rng seed (zseq 4) = Some [1; 0; 2; 3].
+Proof. apply c14_fairness_partial; [left; reflexivity|apply perm_swap]. Qed.
+Example ex_fair6_run : shuffle_rng 4720 (zseq 6) <> None /\ length seeds6 = 720%nat.
+Proof. split; [vm_compute; discriminate|reflexivity]. Qed.
+
+(** floats: 0.0 .. 1.0 *)
+Example ex_float_in_range :
+  exists x, float_range (sf_of_bits 0) (sf_of_bits 4607182418800017408) (2 ^ 64 - 1) = Some x
+            /\ SFleb (sf_of_bits 0) x = true /\ SFltb x (sf_of_bits 4607182418800017408) = true.
+Proof. apply c14_float_in_range. vm_compute. reflexivity. Qed.
+Example ex_float_empty : float_range (sf_of_bits 0) (sf_of_bits 0) 5 = None.
+Proof. apply c14_float_empty_panics. vm_compute. reflexivity. Qed.
+Example ex_float_nan : float_range S754_nan (sf_of_bits 4607182418800017408) 5 = None.
+Proof. apply c14_float_empty_panics. reflexivity. Qed.
+Example ex_float_real :
+  exists x : binary_float 53 1024,
+    float_range (B2SF (B754_zero false : binary_float 53 1024)) (B2SF ProofsFloatR.b_one) 12345 = Some (B2SF x)
+    /\ is_finite x = true /\ (B2R (B754_zero false : binary_float 53 1024) <= B2R x < B2R ProofsFloatR.b_one)%R.
+Proof.
+  apply c14_float_in_range_real; try reflexivity.
+  unfold ProofsFloatR.b_one, B2R, F2R. cbn [Fnum Fexp cond_Zopp].
+  apply Rmult_lt_0_compat; [apply IZR_lt; lia|apply bpow_gt_0].
+Qed.
+Example ex_float_unit :
+  exists u : binary_float 53 1024, f_unit (2 ^ 64 - 1) = B2SF u /\ is_finite u = true
+    /\ B2R u = (IZR ((2 ^ 64 - 1) / 2 ^ 11) * / IZR (2 ^ 53))%R /\ (0 <= B2R u < 1)%R.
+Proof. apply c14_float_unit_in_0_1. lia. Qed.
